@@ -511,6 +511,36 @@ def role_scenario(head, lcls, role, index):
   return scenario
 
 
+def prefix_scenario(head):
+  """A limit key is a pattern matched at the START of the layer name (re.match): a layer whose name merely contains the
+  key elsewhere ('pre_head' vs key 'head') is governed by its class limit and keeps its own tuner choice."""
+  def scenario(ip):
+    s = Scen()
+    cls = ip.find(AQ)
+    lim = z3.Int("limit_bits")
+    s.vars["limit_bits"] = lim
+    ip.assume(z3.And(lim >= 4, lim <= 7))
+    L = SNum(lim, "int")
+    limit = {"Dense": [L, L, L], "head": [16, 16, 16]}
+    hm = Obj(cls, {"limit": limit, "groups": {}, "quantization_config": QCONFIG})
+    hp = HP(ip)
+    r = run_call(ip, ip.getattr(hm, "_get_quantizer"), [hp.obj(), "pre_head_" + head, "pre_head", "Dense"], {})
+    s.claim("no_raise", r[0] == "return")
+    if r[0] != "return":
+      s.info["raised"] = str(r[1])
+      return s
+    name, bits = r[1]
+    role = "kernel" if "kernel" in head else ("bias" if "bias" in head else "activation")
+    s.claim("class_limit_governs", name in QCONFIG[role] and z3.IntVal(QCONFIG[role][name]) <= lim)
+    s.claim("own_choice_not_group", "head" not in hm.attrs["groups"] and
+            all(c[1].startswith("pre_head_") for c in hp.calls))
+    # the key itself, at the start of a name, does form the group
+    r2 = run_call(ip, ip.getattr(hm, "_get_quantizer"), [hp.obj(), "head_1_" + head, "head_1", "Dense"], {})
+    s.claim("prefix_forms_group", r2[0] == "return" and "head" in hm.attrs["groups"])
+    return s
+  return scenario
+
+
 def bounds(vars_):
   return [v <= 16 for k, v in vars_.items() if isinstance(v, z3.ArithRef) and v.sort() == z3.IntSort()]
 
@@ -532,6 +562,9 @@ def cases(tier):
                                   ("_pointwise_kernel", "SeparableConv2D", "pointwise_kernel", 0)):
     out.append(Case(PROP, AQ + "._get_quantizer", "role" + head, role_scenario(head, lcls, role, index), bounds=bounds,
                     replay_kind="c20_getq", assumptions=ASSUME))
+  for head in ("kernel", "bias", "activation"):
+    out.append(Case(PROP, AQ + "._get_quantizer", "prefix_only_" + head, prefix_scenario(head), bounds=bounds,
+                    replay_kind=None, assumptions=ASSUME))
   for form in ("scalar", "list3", "list4"):
     out.append(Case(PROP, AQ + "._adjust_limit", form, adjust_scenario(form), bounds=bounds, replay_kind=None,
                     assumptions=ASSUME))
